@@ -8,9 +8,11 @@ PROVED (obligations from the real source):
       values return arbitrary numbers), the reported accumulator is  S_T - 2^31 * P  with S_T the C01 closed form for the same
       start accumulator (same clear rule): "feeding the reported duration to the timed-move predictor reproduces position and
       accumulator" <=> the reported accumulator lies in [0, 2^31)
+  O4a for CONSTANT-RATE moves (accel == 0) the full statement: the duration is the first tick at which the steps taken reach the budget
+      (minimality included), the position is the recurrence's position at that tick, the accumulator lies in [0, 2^31)
   W   moveTimeLM(rate, steps, accel) == calculate_lm(steps, rate, accel, "clear")[0]   (modular)
 BOUNDED (never counted as proved):
-  O4  T is the FIRST tick at which the steps taken reach the budget, P the net position there: run-time check of the real function
+  O4b for ACCELERATED moves: T is the FIRST tick at which the steps taken reach the budget, P the net position there: run-time check of the real function
       against the tick-by-tick recurrence on exhaustive small scopes, boundary-directed and seeded random moves (native/n_c03.py);
       disagreements are attributed to the frozen regions KF-C03-1..3 (known findings) or reported as violations.
 """
@@ -218,6 +220,95 @@ def check_accumulator(sess, accum_kind):
     return n
 
 
+def check_constant_rate(sess, accum_kind):
+    """O4a (PROOF): for accel == 0 the reported duration IS the first tick at which the steps taken reach the budget, the reported
+    position is the recurrence's position there, and the accumulator lies in [0, 2^31).
+
+    With a constant rate r' (after mirroring) S_t = a0 + r' t.  The body computes T = ceil(q), q = (2^31 * P - accum_adj) / r'.
+    Model of that one mpmath step: T is the exact ceiling of the ideal quotient (lemma 'quotient-rounding' below: an integer
+    quotient below 2^63 is computed exactly at 103 bits; a non-integer one is at least 1/|r'| >= 2^-32 from the nearest integer while
+    the rounding error is at most 2^-40).  Everything else is obligations over the products r'*T (linear in them)."""
+    ctx = sess.new_ctx()
+    ctx.opts['mpf_checks'] = False
+    ctx.opts['mpf_inexact'] = 'real'
+    steps, rate, accel = z3.Ints('steps rate accel')
+    req = [accel == 0, rate != 0, rate <= M - 1, rate >= -(M - 1), steps != 0, steps <= M, steps >= -M, z3.Not(z3.And(steps < 0, rate < 0))]
+    if accum_kind == 'int':
+        accum = z3.Int('accum')
+        req += [accum >= 0, accum < M]
+        acc_arg = VInt(accum)
+    else:
+        acc_arg = S('clear')
+    info = {}
+
+    def toint_hook(ex, p, v, mode):
+        if mode != 'ceil' or v.rational():
+            return None
+        q = v.z()
+        if not (z3.is_app(q) and q.decl().kind() == z3.Z3_OP_DIV):
+            return None
+        num, den = q.children()
+        t = z3.Int(fresh_name('T_ceil'))
+        # exact ceiling of num/den, stated without division
+        p.assume(z3.If(den > 0, z3.And(den * (z3.ToReal(t) - 1) < num, num <= den * z3.ToReal(t)),
+                       z3.And(den * (z3.ToReal(t) - 1) > num, num >= den * z3.ToReal(t))))
+        p.ghost['ceil_T'] = t
+        return VInt(t)
+    ctx.opts['mpf_toint_hook'] = toint_hook
+    ctx.opts['mpf_sqrt_hook'] = lambda ex, p, v, node: iter([(p, VMpf(None, 1, t=z3.Real(fresh_name('sqrt')), err=None))])
+
+    def setup(ex, p):
+        p.ghost['mp_dps'] = VInt(z3.Int('mp_dps0'))
+    ex, outs = run(ctx, MOD, 'calculate_lm', [VInt(steps), VInt(rate), VInt(accel), acc_arg], requires=req, setup=setup)
+    sess.cover(f'calculate_lm[constant-rate,{accum_kind}]/requires', req)
+    neg = steps < 0
+    r_m = z3.If(neg, -rate, rate)
+    st_m = z3.If(neg, -steps, steps)
+    a0 = accum if accum_kind == 'int' else specs.lt_clear_a0(r_m, z3.IntVal(0))
+    tag = f'calculate_lm[constant-rate,{accum_kind}]'
+    n = 0
+    for q, out in outs:
+        if not no_raise(ex, q, out, tag):
+            continue
+        r = out.val
+        if not (isinstance(r, VTuple) and len(r.items) == 3 and all(isinstance(x, VInt) for x in r.items)):
+            oblige_at(ex, q, tag, 'result-shape', False, '(int,int,int)')
+            continue
+        T, P, A = [x.z() for x in r.items]
+        S_T = a0 + r_m * T
+        S_prev = a0 + r_m * (T - 1)
+        fl = lambda x: x / M            # z3 Int division by a positive constant is floor division
+        zabs = lambda x: z3.If(x >= 0, x, -x)
+        sess.cover(f'calculate_lm[constant-rate,{accum_kind}]/path#{q.sig()}', list(q.pc))
+        oblige_at(ex, q, tag, 'ensures', T >= 1, 'duration>=1')
+        oblige_at(ex, q, tag, 'ensures', fl(S_T) == P, 'reported-position==floor(S_T/2^31)')
+        oblige_at(ex, q, tag, 'ensures', zabs(P) == st_m, 'steps-taken-at-T==budget')
+        oblige_at(ex, q, tag, 'ensures', zabs(fl(S_prev)) < st_m, 'one-tick-earlier-the-budget-is-not-reached(minimality)')
+        oblige_at(ex, q, tag, 'ensures', z3.And(A >= 0, A < M, A == S_T - M * P), 'accumulator==S_T-mod-2^31-in-[0,2^31)')
+        n += 1
+    if n == 0:
+        raise EngineError('calculate_lm constant rate: no returning path')
+    for ob in ctx.obligations:
+        ob.info['accum_kind'] = accum_kind
+    sess.absorb(ctx, replay=replay_lm)
+
+
+def quotient_rounding_lemma(sess):
+    """the 103-bit quotient does not move the ceiling (DESIGN C03, stage ii): N, r ints, 0 < |r| <= 2^32, |N| <= 2^63; qhat within
+    2^-40 of N/r and equal to it when r divides N  =>  ceil(qhat) == ceil(N/r)"""
+    N, r, n, rem = z3.Ints('N r n rem')
+    qh = z3.Real('qhat')
+    eps = z3.RealVal(1) / (2 ** 40)
+    hyp = [r > 0, r <= 2 ** 32, N == n * r + rem, rem >= 0, rem < r,
+           qh - (z3.ToReal(n) + z3.ToReal(rem) / z3.ToReal(r)) <= eps, (z3.ToReal(n) + z3.ToReal(rem) / z3.ToReal(r)) - qh <= eps,
+           z3.Implies(rem == 0, qh == z3.ToReal(n))]
+    ceil_true = z3.If(rem == 0, n, n + 1)
+    sess.add('lemma/quotient-rounding-does-not-move-the-ceiling[r>0]', 'spec', 'lemma', hyp,
+             z3.And(z3.ToReal(ceil_true) - 1 < qh, qh <= z3.ToReal(ceil_true)))
+    sess.notes.append('O4a: "the 103-bit quotient of two integers below 2^63 is within 2^-40 of the exact quotient, and exact when the division is '
+                      'exact" is the assumed mpmath contract (DESIGN 3.2); the lemma shows the ceiling is then the exact ceiling (negative r by symmetry)')
+
+
 LM = [z3.Function(f'calculate_lm.{k}', z3.IntSort(), z3.IntSort(), z3.IntSort(), z3.IntSort()) for k in range(3)]
 
 
@@ -282,6 +373,9 @@ def build(sess):
     check_mirror(sess)
     for kind in ('int', 'clear'):
         check_accumulator(sess, kind)
+    for kind in ('int', 'clear'):
+        check_constant_rate(sess, kind)
+    quotient_rounding_lemma(sess)
     check_wrapper(sess)
     check_bounded(sess)
     sess.explanation = ('PROVED: O1 (cannot-move exits), O2 (legacy form mirrors: relational on the real prologue), O3 (reported '
